@@ -7,7 +7,7 @@ T4 = []
 PROOF_MODULES = ["GrpcProofs.Properties.C51"]
 THEOREMS = ["GrpcProofs.C51." + t for t in (
     "selected_cluster_in_config_until_commit", "commit_at_most_once", "refcount_is_selector_plus_inflight",
-    "selected_cluster_in_xdsconfig_until_commit_counterexample", "witness_facts",
+    "selected_cluster_in_xdsconfig_until_commit_counterexample", "witness_facts", "stale_snapshot_counterexample",
     "dropped_after_last_reference_counterexample")]
 DESIGN_REF = "DESIGN.md section 8, C51"
 TECHNIQUE = ("Lean 4 model of the resolver's cluster reference counting and of the dependency manager's cluster subscriptions "
@@ -47,6 +47,7 @@ def directed():
     yield ["rds 1", "pause", "rds 2", "rds 1", "next", "select 1 1", "rds 2", "commit 1", "commit 1"], "flap-queued"
     yield ["rds 1", "select 1 1", "commit 1", "commit 1", "commit 1", "rds -"], "commit-thrice"
     yield ["select 1 1", "commit 9", "rds -", "select 2 1", "rds 1", "select 3 2"], "errors"
+    yield ["pause", "rds 1", "pause", "rds 3", "pause", "next", "select 8 1", "next", "next", "commit 8"], "stale-snapshot"
 
 
 def gen(rng, tier):
